@@ -54,9 +54,12 @@ def enc_value(v):
     if isinstance(v, bool):
         v = int(v)
     if isinstance(v, int):
-        return {"ty": "int", "b": limbs(v), "q": [0, 0]}
+        return {"ty": "int", "b": limbs(v), "q": [0, 0], "lg": v.bit_length()}
     fn, fd = float(v).as_integer_ratio() if float(v) == float(v) and abs(float(v)) != float("inf") else (0, 1)
-    return {"ty": "float", "b": limbs(0), "q": recover(float(v)), "fn": limbs(fn), "fd": limbs(fd)}
+    out = {"ty": "float", "b": limbs(0), "q": recover(float(v)), "fn": limbs(fn), "fd": limbs(fd)}
+    if float(v) == float(v) and abs(float(v)) != float("inf"):
+        out["lg"] = math.frexp(float(v))[1]          # |v| in [2^(lg-1), 2^lg): the exponent view of the specification (EvalBig.ExtVal)
+    return out
 
 
 def enc_term(t):
@@ -291,6 +294,35 @@ def domain(ctx):
             cases.append({"term": ("abs", ("sub", V("x"), V("x"))), "ctx": cx})
             cases.append({"term": ("pow", ("abs", ("neg", V("x"))), C(-1)), "ctx": cx})
             cases.append({"term": ("abs", ("pow", C(10.0), C(400))), "ctx": {}})
+    # IEEE special values out of float arithmetic (EvalBig.ExtVal): products, quotients and sums that overflow give the signed
+    # infinity, inf - inf / inf * 0 / inf / inf / anything / 0 give NaN, finite / inf gives a zero, and what stays well inside the
+    # range stays finite - as literals and as bindings, with integer and float partners
+    huge = [1e308, -1e308, 1.5e308, 1e200, -1e200, 1e154, 1.5e154]
+    part = [10.0, -10.0, 1e200, -1e150, 0.5, 2, -3, 0.0, 0, 1e-200]
+    for a in huge:
+        for b in part:
+            cx = {"x": a, "y": b}
+            p = ("mul", V("x"), V("y"))
+            cases.append({"term": p, "ctx": cx})
+            cases.append({"term": ("mul", C(a), C(b)), "ctx": {}})
+            cases.append({"term": ("div", V("x"), V("y")), "ctx": cx})
+            cases.append({"term": ("div", V("y"), p), "ctx": cx})
+            cases.append({"term": ("sub", p, p), "ctx": cx})
+            cases.append({"term": ("add", p, ("neg", p)), "ctx": cx})
+            cases.append({"term": ("add", p, p), "ctx": cx})
+            cases.append({"term": ("div", p, p), "ctx": cx})
+            cases.append({"term": ("mul", ("mul", p, V("x")), C(0.0)), "ctx": cx})
+            cases.append({"term": ("mul", C(0), ("mul", p, V("x"))), "ctx": cx})
+            cases.append({"term": ("div", ("mul", p, V("x")), ("sub", V("y"), V("y"))), "ctx": cx})
+            cases.append({"term": ("div", C(1.0), ("mul", p, V("x"))), "ctx": cx})
+            cases.append({"term": ("div", C(3), ("div", C(1.0), ("mul", ("mul", V("x"), V("x")), V("x")))), "ctx": cx})
+            cases.append({"term": ("neg", ("mul", ("abs", p), C(1e200))), "ctx": cx})
+            cases.append({"term": ("abs", ("neg", ("mul", p, C(1e160)))), "ctx": cx})
+            cases.append({"term": ("add", ("abs", p), ("abs", V("x"))), "ctx": cx})
+            cases.append({"term": ("sub", ("abs", p), ("neg", ("abs", V("x")))), "ctx": cx})
+            cases.append({"term": ("mul", ("div", V("x"), C(1e-200)), V("y")), "ctx": cx})
+            cases.append({"term": ("add", ("mul", V("x"), V("x")), V("y")), "ctx": cx})
+            cases.append({"term": ("sub", V("y"), ("mul", V("x"), V("x"))), "ctx": cx})
     # integers beyond the range of a double and beyond CPython's 4300-digit text limit: as literals, as bindings of variables that
     # are used, and as bindings of variables the expression never mentions
     for hv_ in (10 ** 400, -(7 ** 500), 10 ** 5000 + 1):
